@@ -201,11 +201,73 @@ def run(seed, tier, lean) -> Result:
                                                 fingerprint='C10:model-divergence:' + ops[at]['k'], replay={'ops': ops[:at + 1], **info}, no_failing_input=True))
         if len(res.samples) < 2: res.samples.append({'ops': ops[:10]})
     if queue:
+        seen = set()
         for q, kind, what, *info in check_fromdict(queue, lambda hi: hi in clean, hists, res):
+            if q['hi'] in seen: continue        # one report per history
+            seen.add(q['hi'])
             rp = {'ops': hists[q['hi']][:q['step'] + 1], 'document': q['payload']['doc'], 'withModel': q['payload']['withModel'], **(info[0] if info else {})}
             res.violations.append(genexec.driver_error('C10', what, rp) if kind == 'driver-error' else
                                   genexec.divergence('C10', '_from_dict', f'on the file written at step {q["step"]} ({what})', rp))
     return res
+
+def genexec_measure(seed: int, n: int) -> dict:
+    """seeded experiment (tools/genexec_seeded.py), DOCUMENT family only (the history family of C10 is measured by the tool
+    itself): n histories of the quick check on the (mutated) implementation, the hand model (`ag_hist`, step by step up to
+    the first disagreement) and the (regenerated) code: documents of `_to_dict` before every save and at the end, and
+    `_from_dict` on the files the implementation wrote.  A case = one history."""
+    from .. import genexec
+    rnd = random.Random(seed)
+    st = {'cases': 0, 'impl_ne_hand': 0, 'gen_follows_impl': 0, 'gen_ne_impl': 0, 'impl_crash': 0, 'examples': []}
+    fam = {'documents_compared': 0, 'loads_compared': 0, 'documents_differ': 0, 'loads_differ': 0}
+    def note(kind, info):
+        if len([e for e in st['examples'] if e[0] == kind]) < 2: st['examples'].append([kind, info])
+    hists = []
+    for k in range(n):
+        g = Gen(random.Random(rnd.getrandbits(48)), WEIGHTS, nmax=rnd.choice([4, 6, 10]), rich=True)
+        ops = g.gen(rnd.randint(8, 40))
+        if not any(o['k'] == 'save_load' for o in ops):
+            ops.insert(len(ops) - 1, {'k': 'save_load', 'fmt': rnd.choice(['json', 'yaml']), 'ext': 'yml', 'withModel': rnd.random() < 0.5})
+        hists.append(ops)
+    hand, gen = genexec.run_both([{'op': 'ag_hist', 'case': i, 'ops': h} for i, h in enumerate(hists)], 'gen_ag_todict',
+                                 rewrite=lambda q: dict(q, pos=doc_positions(q['ops'])))
+    queue, per = [], {}
+    res = Result()
+    for hi, ops in enumerate(hists):
+        st['cases'] += 1
+        if 'error' in hand[hi] or 'error' in gen[hi]:
+            note('driver-error', [hand[hi].get('error'), gen[hi].get('error')]); continue
+        tap = GenDocs(gen[hi]['model'], res, queue, hi)
+        im = Impl(); first = None
+        for i, op in enumerate(ops):
+            tap('before', i, op, im, None)
+            try: s_ = im.step(op)
+            except Exception as e:
+                st['impl_crash'] += 1; note('impl-crash', f'{type(e).__name__} at step {i} ({op["k"]}): {str(e)[:80]}'); first = -1; break
+            mo = hand[hi]['model'][i]
+            tap('after', i, op, im, s_)
+            if [s_['err'], canon_out(op, s_['out']), canon_obs(s_['obs'])] != [mo['err'], canon_out(op, mo['out']), canon_obs(mo['obs'])]:
+                first = i; break
+        else:
+            tap('end', len(ops), None, im, None)
+        per[hi] = {'first': first, 'tap': tap, 'loads_bad': []}
+    for q, kind, what, *info in (check_fromdict(queue, lambda hi: hi in per, hists, res) if queue else []):
+        per[q['hi']]['loads_bad'].append([q['step'], kind, what] + list(info))
+    for hi, p in per.items():
+        differ = bool(p['tap'].bad or p['loads_bad'])
+        fam['documents_differ'] += len(p['tap'].bad); fam['loads_differ'] += len(p['loads_bad'])
+        if p['first'] is not None and p['first'] >= 0:
+            st['impl_ne_hand'] += 1
+            if not differ:
+                st['gen_follows_impl'] += 1
+                note('gen=impl!=hand', {'history': hi, 'step': p['first'], 'op': hists[hi][p['first']]})
+        if differ:
+            st['gen_ne_impl'] += 1
+            note('gen!=impl', {'ops': hists[hi][:(p['tap'].bad[0][0] if p['tap'].bad else p['loads_bad'][0][0] + 1)],
+                               'what': (p['tap'].bad[0][1] if p['tap'].bad else p['loads_bad'][0][2])})
+    fam['documents_compared'] = res.distribution.get('generated_code_documents_compared', 0)
+    fam['loads_compared'] = res.distribution.get('generated_code_loads_compared', 0)
+    st['document_family'] = dict(fam, **{k: st[k] for k in ('cases', 'impl_ne_hand', 'gen_follows_impl', 'gen_ne_impl', 'impl_crash')})
+    return st
 
 def replay(path):
     r = json.load(open(path))
